@@ -47,6 +47,7 @@ type HarnessSpec struct {
 	MayBlock   []string            `json:"may_remain_blocked"`
 	NoInit     []string            `json:"no_init"`
 	PermuteMap bool                `json:"permute_maps"`
+	SchedFork  int                 `json:"sched_fork"` // >0: fork on scheduling choices, at most this many non-default choices per path
 	Tiers      map[string]TierSpec `json:"tiers"`
 	Reach      []string            `json:"reach"`
 	Replay     string              `json:"replay"` // "native" (default) | "none"
@@ -200,6 +201,10 @@ func (h *HarnessSpec) Config(l *Loaded, tier TierSpec) *interp.Config {
 		unwind = 64
 	}
 	exec := append([]string{RepoModule + "/..."}, h.Execute...)
+	schedFork := h.SchedFork
+	if v, ok := tier.Params["sched_fork"]; ok {
+		schedFork = v // per-tier override
+	}
 	return &interp.Config{
 		HarnessPkg: l.Pkg.Pkg.Path(),
 		Execute:    exec,
@@ -211,5 +216,6 @@ func (h *HarnessSpec) Config(l *Loaded, tier TierSpec) *interp.Config {
 		MayBlock:   h.MayBlock,
 		PermuteMap: h.PermuteMap,
 		NoInit:     h.NoInit,
+		SchedFork:  schedFork,
 	}
 }
